@@ -259,7 +259,9 @@ def gen_sources_case(rng, P):
     for _ in range(rng.randint(3, 10)):
         x = rng.random()
         if regs and x < 0.55: prog += [fire(rng.choice(regs)) for _ in range(rng.choice([1, 1, 2, 3, 5]))] + ['dispatch']
-        elif x < 0.65: prog.append(rng.choice(['pause', 'resume', 'stop', 'start']) + ' %d' % g.m())
+        elif x < 0.6: prog.append(rng.choice(['pause', 'resume', 'stop', 'start']) + ' %d' % g.m())
+        elif x < 0.65:                 # leave RUNNING in two steps (pause, then stop or deregister while PAUSED): the loop goes on for the others
+            m2 = g.m(); prog += ['pause %d' % m2, rng.choice(['stop %d' % m2, 'stop %d' % m2, 'dereg %d' % m2]), 'stats', 'dispatch']
         elif x < 0.75 and regs: prog.append('srclen %d %d' % (rng.choice(regs)[0], rng.choice([1, 2, 3, 8])))
         elif x < 0.8 and regs: prog += ['loop'] + [fire(rng.choice(regs)) for _ in range(rng.randint(1, 4))]
         elif x < 0.85: prog.append('errno %d' % rng.choice([2, 4, 11, 13]))
@@ -331,6 +333,17 @@ def gen_stash_case(rng, P):
         prog = prog[:5] + ['tell 0 1 %d 0' % g.newdata() + '' for _ in range(k)]
         prog = [x for p in prog for x in ([p, 'dispatch'] if p.startswith('tell') else [p])]
         prog += ['unstash 1 %d' % rng.randint(1, k), 'unstash 1 9', 'dispatch', 'quit 1', 'dispatch', 'dispatch', 'live', 'dereg 0', 'dereg 1', 'ctxdereg', 'live']
+        g.procs[1] = prog
+        return 'core', g.lines()
+    if rng.random() < 0.2:
+        # directed: events still stashed when the module stops are gone: after stop + start an unstash finds only what was stashed since
+        k = rng.randint(1, 3); st = g.newproc(['stash 1 0'])
+        g.cbs = ['cb 1 evt 0 ' + ' '.join(['%d:1' % st] * (k + 1) + ['0:1'] * 4)]
+        prog = prog[:5]
+        for _ in range(k): prog += ['tell 0 1 %d 0' % g.newdata(), 'dispatch']
+        if rng.random() < 0.5: prog.append('unstash 1 1')
+        prog += [rng.choice(['stop 1', 'stop 1', 'pill 0 1']), 'dispatch', 'start 1', 'unstash 1 9', 'tell 0 1 %d 0' % g.newdata(), 'dispatch', 'unstash 1 9',
+                 'dispatch', 'quit 1', 'dispatch', 'dispatch', 'live', 'dereg 0', 'dereg 1', 'ctxdereg', 'live']
         g.procs[1] = prog
         return 'core', g.lines()
     for _ in range(rng.randint(3, 12)):
@@ -522,6 +535,31 @@ def gen_flush_case(rng, P):
 
 def gen_subs_or_flush_case(rng, P):
     return gen_flush_case(rng, P) if rng.random() < 0.35 else gen_subs_case(rng, P)
+
+def gen_sysnote_case(rng, P):
+    """system notifications: one or two watchers subscribed to the system topics -- RUNNING or PAUSED while things happen -- and every kind of
+    transition of the other modules (start, pause, resume, stop, deregistration, also of the LAST running module, also while the watcher is
+    paused), driven from outside the loop between dispatch calls; the watcher is resumed at the end and the loop driven until it has everything"""
+    nm = rng.randint(3, 4)
+    g = _base(rng, P, nm, hooks=rng.random() < 0.25)
+    watchers = [0] if rng.random() < 0.7 else [0, 1]
+    actors = [m for m in range(nm) if m not in watchers]
+    prog = ['ctxreg 1'] + ['reg %d' % m for m in range(nm)] + ['start %d' % m for m in watchers]
+    for w in watchers:
+        for t in rng.sample(SYS_TOPICS, rng.randint(2, len(SYS_TOPICS))): prog.append('sub %d %d %d 0 %d' % (w, t, rng.choice([0, 0, 2, 3]), rng.randint(1, 99)))
+    prog += ['dispatch']
+    for _ in range(rng.randint(4, 12)):
+        x = rng.random(); a = rng.choice(actors)
+        if x < 0.2: prog.append('start %d' % a)
+        elif x < 0.4: prog.append('pause %d' % a)
+        elif x < 0.55: prog.append('resume %d' % a)
+        elif x < 0.7: prog.append('stop %d' % a)
+        elif x < 0.75: prog.append('dereg %d' % a)
+        elif x < 0.9: prog.append(rng.choice(['pause %d', 'resume %d']) % rng.choice(watchers))
+        else: prog.append('dispatch')
+    prog += ['resume %d' % w for w in watchers] + ['dispatch', 'dispatch', 'dispatch', 'quit 2', 'dispatch', 'dispatch', 'live'] + ['dereg %d' % m for m in range(nm)] + ['ctxdereg', 'live']
+    g.procs[1] = prog
+    return 'core', g.lines()
 
 def gen_pill_case(rng, P):
     """poison pills against everything that can be in the recipient's mailbox: earlier and later user messages (every priority), system
